@@ -2,6 +2,8 @@
 Export of textX based models and metamodels to dot file.
 """
 
+import os
+from contextlib import contextmanager, suppress
 from dataclasses import dataclass
 from typing import Dict, Iterable, List, Union
 from typing import Optional as Opt
@@ -298,8 +300,27 @@ set namespaceSeparator .
         return f"{base.fqn} <|-- {special.fqn}\n"
 
 
+@contextmanager
+def _open_output(file_name):
+    """
+    Open `file_name` for writing in an all-or-nothing manner. The content is
+    written to a temporary file in the same folder which replaces `file_name`
+    only when the `with` block and the closing of the file have succeeded. On
+    failure the temporary file is removed and `file_name` is left as it was.
+    """
+    tmp_file_name = f"{file_name}.{os.getpid()}.tmp"
+    try:
+        with open(tmp_file_name, "w", encoding="utf-8") as f:
+            yield f
+        os.replace(tmp_file_name, file_name)
+    except BaseException:
+        with suppress(OSError):
+            os.remove(tmp_file_name)
+        raise
+
+
 def metamodel_export(metamodel, file_name, renderer=None):
-    with open(file_name, "w", encoding="utf-8") as f:
+    with _open_output(file_name) as f:
         metamodel_export_tofile(metamodel, f, renderer)
 
 
@@ -406,7 +427,7 @@ def model_export(model, file_name, repo=None):
     Returns:
         Nothing
     """
-    with open(file_name, "w", encoding="utf-8") as f:
+    with _open_output(file_name) as f:
         model_export_to_file(f, model, repo)
 
 
